@@ -13,6 +13,16 @@ CHECKS = {
         text="Machine-checked theorems over the executable model of Notification/OPEN/capability codecs: decode(encode x)=x for every representable value, every accepted byte string is the canonical encoding of a representable value (so re-encoding reproduces it and nested lengths agree), decoders total (no panic). The model is tied to the Go code on every run by running both on generated and boundary inputs and by applying the extracted specification oracles to the Go outputs.",
         note="Trusted: Coq kernel; hand-written model tied to code by differential testing (generator-bounded); ExtrOcamlBasic extraction; genconsts translator. Error strings and nil-vs-empty slices are not compared.",
         design="8/C15"),
+    "C14": dict(
+        technique="Coq theorem: encoder output = canonical encoding of the intended OPEN iff representable, else nothing; differential correspondence + extracted oracle",
+        text="Theorem c14_open_sent characterises newOpenMessage+encode for every (AS, hold, id, capability list): exactly the RFC encoding of version 4 / AS or AS_TRANS / hold / id / [4-octet-AS cap ++ plugin caps minus code 65] when representable, and no bytes otherwise; c14_no_malformed: whatever is emitted strict-parses and decodes to the intended OPEN. Tied to the Go code by differential runs over boundary-heavy capability lists and by the extracted oracle applied to the Go output.",
+        note="Trusted: Coq kernel; model-code tie is differential (generator-bounded); hold time given in whole seconds; the FSM's use of the encoder (send or close) is covered by the connection-level checks.",
+        design="8/C14"),
+    "C02": dict(
+        technique="Coq theorems: accept iff acceptable (RFC-level predicate over the strict grammar), reject names a present fault, no panic; differential correspondence + extracted oracle",
+        text="c02_accept_iff: decode+validate accepts a body iff it is the canonical encoding of a representable OPEN that satisfies the independent acceptability predicate (version 4, AS via 2-octet field/AS_TRANS + 4-octet-AS capability, hold 0 or >=3, non-multicast id not colliding inside the AS), returning exactly the sender's id, hold time and capabilities in order; c02_reject_sound: every refusal carries a notification whose fault is present; c02_no_panic. Function-level half; the FSM half (KEEPALIVE reply, OnOpenMessage once, NOTIFICATION then close) is checked at connection level.",
+        note="Trusted: Coq kernel; model-code tie is differential (generator-bounded). The structural-fault oracle (subcode 0 vs 4) is an extracted specification function not yet covered by a theorem beyond 'not the encoding of any representable OPEN'.",
+        design="8/C02"),
 }
 
 NOT_YET = "check not built yet in this session (planned; see DESIGN.md section 11)"
